@@ -127,6 +127,9 @@ def generate(seed, tier):
         yield req_p(s)
         yield req_c(0, s)
         yield req_c(1, s)
+    # the systematic neighbourhood of the powers of two, as texts (reduced set; family todbl has the full one)
+    for i, (d, sc, _) in enumerate(nc.pow2_neighbourhood(1)):
+        yield req_p(("-" if i % 7 == 3 else "") + nc.text_of_digits(d, sc))
     for i in range(n):
         c = r.random()
         if c < 0.55:
